@@ -8,8 +8,8 @@
      BER encoding of THAT value: an independent reference decoder returns the value
      and exactly the bytes that followed (so a conforming peer decodes the same value);
    - the UPER encoder of the C (std = false) is the X.691 one (std = true) on types
-     without semi-constrained INTEGERs and without CHOICEs whose tag order is a
-     non-involutive permutation; outside, refuted with witnesses (known findings). *)
+     without semi-constrained INTEGERs; outside, refuted with witnesses (known
+     finding).  (A second deviation, the CHOICE index, was repaired in /repo.) *)
 From Coq Require Import ZArith List Bool.
 From A1 Require Import Base.Bytes Base.Digits Leaf.IntegerConv Leaf.IntegerConvProofs
   Leaf.BerTL Leaf.BerTLProofs Rt.Types Rt.Comb Rt.Der Rt.DerProofs Rt.Uper Rt.UperStd.
@@ -71,7 +71,8 @@ Theorem C02_uper_semiconstrained_lower_bound_refuted :
 Proof. exact uper_semiconstrained_lb_refuted. Qed.
 Print Assumptions C02_uper_semiconstrained_lower_bound_refuted.
 
-Theorem C02_uper_choice_order_refuted :
-  exists t v, uper_encode false t v <> uper_encode true t v.
-Proof. exact uper_choice_order_refuted. Qed.
-Print Assumptions C02_uper_choice_order_refuted.
+(* repaired in /repo (fix: b565b4c): the tables the compiler used to emit *)
+Theorem C02_old_choice_tables_were_not_canonical :
+  exists alts i, c_index alts i <> canonical_index alts i.
+Proof. exact old_choice_tables_were_not_canonical. Qed.
+Print Assumptions C02_old_choice_tables_were_not_canonical.
